@@ -40,6 +40,25 @@ theorem after_each_step (l : Lay) (ok : l.Ok) (ops1 ops2 : List Op) (hops : OpsO
   have hpre : OpsOk l ops1 := opsOk_prefix l ops1 ops2 hops
   exact ⟨nothing_pending l ok ops1 hpre, reopen_same l ok ops1 hpre⟩
 
+/-- entering a context forgets everything: what the object holds after `__enter__` is a function of the bytes on
+    disk alone — two objects with whatever different memories (tables remembered from an earlier context, from
+    another file, from before other objects rearranged this file) that look at the same bytes hold the same table
+    afterwards. Nothing remembered across a pause can survive it. -/
+theorem enter_forgets (s₁ s₂ : TdfSt) (h : s₁.disk = s₂.disk) (s' : TdfSt) (h1 : openFile s₁.disk = some s') :
+    (step s₁ .reopen).1 = s' ∧ (step s₂ .reopen).1 = s' := by
+  have h2 : openFile s₂.disk = some s' := by rw [← h]; exact h1
+  simp [step, h1, h2]
+
+/-- … in particular after a pause during which OTHER objects ran any history on the file: the first object, on
+    re-entering, holds exactly the state those objects left (here: the state of the model after their history),
+    whatever it remembered before -/
+theorem resume_sees_what_others_left (l : Lay) (ok : l.Ok) (ops : List Op) (hops : OpsOk l ops) (stale : TdfSt)
+    (h : stale.disk = (runOps l.state ops).disk) :
+    (step stale .reopen).1 = runOps l.state ops := by
+  have := reopen_same l ok ops hops
+  rw [← h] at this
+  simp [step, this]
+
 /-- reading a block through the open object = reading its byte range from the disk -/
 theorem object_reads_disk (l : Lay) (e : Entry) :
     payloadOf l.state e = readAt l.state.disk e.off.toNat e.size.toNat := rfl
